@@ -146,10 +146,14 @@ package ethereum
 // (the poller asks with safe == false: "finalized" on chains read at finalized height, else "latest")
 //@   at [return block.Number.Uint64(), nil]: assert [same-finality-tag-as-the-poller] !block.Safe
 
+// the set-up part of Run: the connector watches the configured contract, and head events are
+// read at finalized height exactly on Ethereum outside dev mode
 //@ func (w *Watcher) Run(ctx context.Context) (err error)
 //@   props C10
-//@   assume-contract
+//@   requires w != nil
 //@   modifies *
+//@   at [call NewEthereumConnector]: assert [watches-the-configured-contract] $arg3 == w.contract
+//@   at [call NewBlockPollConnector]: assert [finalized-heads-exactly-on-ethereum] $arg1 == baseConnector && $arg3 == old(w.chainID == 2 && !w.unsafeDevMode)
 //
 // go#2: re-observation requests. One head read, made before the receipt is requested; a
 // message is handed on only if the receipt's block number plus the required confirmations
@@ -214,3 +218,13 @@ package ethereum
 //@         | && old(pLock.height) + conf(w, ev.Safe, old(pLock.message)) + w.maxWaitConfirmations <= blockNumberU ==> !indom(w.pending, key) && nsent(w.msgChan) == old(nsent(w.msgChan))
 //@       iter-ensures [other-entries-kept] mapUnchangedExcept(w.pending, key)
 //@   end-closure
+
+// ---------------------------------------------------------------- construction (C10)
+
+// The watcher looks at the contract, chain and queues it was given, honours the confirmation
+// switch it was given, starts with an empty pending table and the 60-block abandonment window.
+//@ func NewEthWatcher(url string, contract eth_common.Address, networkName string, rd readiness.Component, chainID vaa.ChainID, messageEvents chan *common.MessagePublication, setEvents chan *common.GuardianSet, obsvReqC chan *gossipv1.ObservationRequest, unsafeDevMode bool, pollIntervalMs *uint, waitForConfirmations bool) (w *Watcher)
+//@   props C10
+//@   ensures [as-passed] w != nil && w.contract == contract && w.chainID == chainID && w.msgChan == messageEvents && w.setChan == setEvents && w.obsvReqC == obsvReqC && w.unsafeDevMode == unsafeDevMode && w.waitForConfirmations == waitForConfirmations && w.pollIntervalMs == pollIntervalMs
+//@   ensures [starts-empty] w.pending != nil && len(w.pending) == 0 && w.maxWaitConfirmations == 60
+//@   modifies *
